@@ -89,6 +89,25 @@ func versPatterns(k int) [][]string {
 	return out
 }
 
+// nonAlternating: comparator sequences of length k that are not VERS-alternating.
+func nonAlternating(k int) [][]string {
+	var out [][]string
+	var rec func(cur []string)
+	rec = func(cur []string) {
+		if len(cur) == k {
+			if !validVersPattern(cur) {
+				out = append(out, append([]string{}, cur...))
+			}
+			return
+		}
+		for _, op := range versOps {
+			rec(append(cur, op))
+		}
+	}
+	rec(nil)
+	return out
+}
+
 func pad3(vs []string) []string {
 	out := append([]string{}, vs...)
 	for len(out) < 4 {
@@ -134,6 +153,37 @@ func init() {
 								v := pad3(vs)
 								out = append(out, &Config{ID: fmt.Sprintf("C04/%s/%s/%s/%s", scheme, strings.Join(pat, " "), strings.Join(vs, "|"), probe), Pkg: zzhPkg, Func: "C04Vers",
 									Args: []ArgSpec{ArgStr(eco), ArgStr(scheme), ArgStr(strings.Join(pat, " ")), ArgTmpl(v[0]), ArgTmpl(v[1]), ArgTmpl(v[2]), ArgTmpl(v[3]), ArgTmpl(probe)}})
+							}
+						}
+					}
+				}
+				if scheme == "pypi" {
+					// PEP 440 pre-release default: pre-/dev-release probes against ranges that do or do not
+					// name a pre-release (in any comparator, '!=' included)
+					fin, pre := "{d}.{d}", "{d}.{d}{[abc]}{d}"
+					if tier == "thorough" {
+						pre = "{d}.{d}(a|b|rc|.dev){d}"
+					}
+					for _, preT := range expandAll(pre) {
+						for k := 1; k <= 2; k++ {
+							for _, pat := range versPatterns(k) {
+								for mask := 0; mask < 1<<k; mask++ {
+									vs := make([]string, k)
+									for i := range vs {
+										vs[i] = fin
+										if mask&(1<<i) != 0 {
+											vs[i] = preT
+										}
+									}
+									for _, probe := range []string{preT, fin} {
+										if mask == 0 && probe == fin {
+											continue // covered above
+										}
+										v := pad3(vs)
+										out = append(out, &Config{ID: fmt.Sprintf("C04/%s/%s/pre/%s/%s", scheme, strings.Join(pat, " "), strings.Join(vs, "|"), probe), Pkg: zzhPkg, Func: "C04Vers",
+											Args: []ArgSpec{ArgStr(eco), ArgStr(scheme), ArgStr(strings.Join(pat, " ")), ArgTmpl(v[0]), ArgTmpl(v[1]), ArgTmpl(v[2]), ArgTmpl(v[3]), ArgTmpl(probe)}})
+									}
+								}
 							}
 						}
 					}
@@ -190,7 +240,7 @@ func init() {
 			return out
 		},
 		Bounds: func(tier string) string {
-			return "11 schemes; every VERS-valid comparator sequence with k <= 3 constraints, and for k = 4 the two-pair sequences (lower upper lower upper, all 16 inclusiveness combinations; thorough adds one pair with an = point and a != exclusion in every position); k = 5..8 of the property is NOT reached; versions and probes from 2 (quick) / 3 (thorough) small numeric templates per scheme; pypi restricted to final/post releases"
+			return "11 schemes; every VERS-valid comparator sequence with k <= 3 constraints, and for k = 4 the two-pair sequences (lower upper lower upper, all 16 inclusiveness combinations; thorough adds one pair with an = point and a != exclusion in every position); k = 5..8 of the property is NOT reached; versions and probes from 2 (quick) / 3 (thorough) small numeric templates per scheme; pypi: final/post releases, plus k <= 2 ranges with pre-release bounds and pre-/dev-release probes against the PEP 440 default"
 		},
 		Assume: []string{"scheme -> ecosystem routing table is spec-side (DESIGN B.5)", "the interval denotation versSem in harness/pkg/zzh/vers.go is the spec-side reading of the VERS specification"},
 	})
@@ -215,6 +265,19 @@ func init() {
 					pats := versPatterns(k)
 					if tier != "thorough" && k == 3 {
 						pats = thinPats(pats, 12)
+					}
+					// comparator sequences that do not alternate (two lower or two upper bounds in a row) are
+					// accepted as well and are inside the property: all of them for k = 2, 12 (quick) for k = 3
+					if k >= 2 {
+						na := nonAlternating(k)
+						if k == 3 && tier != "thorough" {
+							// one ordering per multiset (the permutations are applied as transformations):
+							// two bounds of one direction with an exclusion, a point or an opposite bound
+							na = [][]string{{">=", ">=", "!="}, {">", ">=", "!="}, {"<=", "<=", "!="}, {"<", "<=", "!="},
+								{">=", ">", "="}, {"<", "<", "="}, {">=", ">", "<"}, {">=", ">=", "<="}, {"<", "<=", ">"}, {"<=", "<=", ">="},
+								{"=", "=", "!="}, {"!=", "!=", ">="}}
+						}
+						pats = append(pats, na...)
 					}
 					if tier != "thorough" && len(pats) > 24 {
 						pats = thinPats(pats, 24)
@@ -260,6 +323,26 @@ func init() {
 						}
 					}
 				}
+				// k = 4 with an exclusion or a point between two bounds of one direction and a bound of the other
+				// (the grouping then depends on the sorted order of the same-direction bounds): every permutation
+				mixed4 := [][]string{{">=", ">", "!=", "<"}, {">=", "!=", "<", "<="}}
+				if tier == "thorough" {
+					mixed4 = append(mixed4, []string{">", ">=", "=", "<="}, []string{">=", "=", "!=", "<"}, []string{">", "!=", "!=", "<="})
+				}
+				for _, pat := range mixed4 {
+					vs := make([]string, 4)
+					for i := range vs {
+						vs[i] = strings.Replace(vt, "{d}", fmt.Sprint(2*i+1), 1)
+					}
+					for _, pm := range perms(4) {
+						if isIdentity(pm) {
+							continue
+						}
+						tr := "perm:" + joinInts(pm)
+						out = append(out, &Config{ID: fmt.Sprintf("C16/%s/%s/%s", scheme, strings.Join(pat, " "), tr), Pkg: zzhPkg, Func: "C16Inv",
+							Args: []ArgSpec{ArgStr(eco), ArgStr(scheme), ArgStr(strings.Join(pat, " ")), ArgTmpl(vs[0]), ArgTmpl(vs[1]), ArgTmpl(vs[2]), ArgTmpl(vs[3]), ArgTmpl(probe), ArgStr(tr), ArgStr("")}})
+					}
+				}
 				// k = 4: two lower/upper pairs with staggered bounds (1, 3, 5, 7 as the leading component),
 				// quick: the four mixed-inclusiveness patterns, thorough: all sixteen; every transposition
 				// and the reversal, one duplicate, one empty constraint, one space per constraint
@@ -289,7 +372,7 @@ func init() {
 			return out
 		},
 		Bounds: func(tier string) string {
-			return "11 schemes; comparator patterns with k <= 3 (quick: at most 24 patterns for k=2, 12 for k=3, and k <= 2 for gem and maven), plus the two-pair patterns of k = 4 (quick: 4 of 16) under 6 permutations, 2 duplicates, 2 empty constraints and 2 spaces; all permutations, one duplicate at every position, one empty constraint at every position, one space at every (quick: every third, for k=3) byte position of every constraint (tab, CR and LF are non-printable and belong to C17)"
+			return "11 schemes; comparator patterns, alternating and not, with k <= 3 (quick: at most 24 patterns for k=2, 12 for k=3, and k <= 2 for gem and maven), plus, for k = 4, the two-pair patterns (quick: 4 of 16) under 6 permutations, 2 duplicates, 2 empty constraints and 2 spaces, and 2 (5) patterns with an exclusion between same-direction bounds under all 23 permutations; all permutations, one duplicate at every position, one empty constraint at every position, one space at every (quick: every third, for k=3) byte position of every constraint (tab, CR and LF are non-printable and belong to C17)"
 		},
 	})
 
